@@ -89,7 +89,9 @@ fn gen_pattern(t: &mut Tape, horizon: usize) -> Vec<Pat> {
 fn gen_scenario(t: &mut Tape) -> Scenario {
     let horizon = 16;
     let ann_log = t.range(-2, 1) as i8;
-    let second_port_log = if t.chance(1, 4) { Some(ann_log - 1) } else { None };
+    // a second idle port with a shorter announce interval: the BMCA period (smallest announce interval of the
+    // instance) is then 1/2, 1/4 or 1/8 of this port's announce interval
+    let second_port_log = if t.chance(1, 3) { Some(ann_log - 1 - t.below(3) as i8) } else { None };
     let nm = match t.weighted(&[3, 3, 2, 1]) {
         0 => 1,
         1 => 2,
@@ -185,7 +187,7 @@ pub fn run_scenario(sc: &Scenario, out: &mut CaseOut) -> (bool, bool, bool) {
     let mut guard = 0;
     loop {
         guard += 1;
-        if guard > 20000 {
+        if guard > 20000 + 40 * sc.horizon {
             out.fail("harness: event loop does not terminate", "");
             break;
         }
@@ -306,6 +308,11 @@ pub fn run_scenario(sc: &Scenario, out: &mut CaseOut) -> (bool, bool, bool) {
             let msg = announce_from(m.id, seq, m.ann, 0, 0);
             node.recv_general(0, &msg.encode());
             recs[mi].push(Recv { t: tn, seq, clean });
+            if recs[mi].len() > 96 {
+                // long runs: only the recent past matters to the oracle (all windows are <= 8 intervals)
+                let keep_from = tn.saturating_sub(16 * interval);
+                recs[mi].retain(|r| r.t >= keep_from);
+            }
         }
         if out.violation.is_some() {
             break;
@@ -346,14 +353,54 @@ pub fn case(t: &mut Tape) -> CaseOut {
     out
 }
 
+/// Long run: one or two masters announcing in (almost) every interval through a complete sequence-number cycle
+/// and half of the next one, so that any non-wrap-aware "newest id" bookkeeping shows.
+fn gen_long(t: &mut Tape) -> Scenario {
+    let ann_log = t.range(-2, 1) as i8;
+    let nm = 1 + t.below(2) as usize;
+    let first_seq = 20000 + t.below(45536) as u16;
+    let horizon = (65536 - first_seq as usize) + 32768 + 64 + t.below(2000) as usize;
+    let mut masters = vec![];
+    for k in 0..nm {
+        let mut clock = [0u8; 8];
+        clock[7] = 0x20 + k as u8;
+        let id = PortId { clock, port: 1 };
+        let mut ann = simple_announce(clock, 100 + 10 * k as u8, 6, *t.pick(&[0u16, 1, 3]));
+        ann.gm_identity = clock;
+        let mut pats = Vec::with_capacity(horizon);
+        let gap_every = 500 + t.below(4000) as usize;
+        let off = 1 + t.below(998);
+        for i in 0..horizon {
+            pats.push(if i % gap_every == gap_every - 1 { *t.pick(&[Pat::Absent, Pat::Dup, Pat::Once]) } else { Pat::Once });
+        }
+        masters.push(MSpec { id, ann, first_seq: first_seq.wrapping_add(k as u16 * 7919), pats, offs: vec![off; horizon] });
+    }
+    Scenario { ann_log, second_port_log: None, receipt_timeout: *t.pick(&[3u8, 2, 4]), masters, bmca_phase_pm: t.below(1000), horizon }
+}
+
+pub fn case_long(t: &mut Tape) -> CaseOut {
+    let mut out = CaseOut::new();
+    let sc = gen_long(t);
+    let (q, _l, w) = run_scenario(&sc, &mut out);
+    out.render = json!({"long_run": true, "announce_log": sc.ann_log, "receipt_timeout": sc.receipt_timeout, "bmca_phase_permille": sc.bmca_phase_pm, "horizon_intervals": sc.horizon,
+        "masters": sc.masters.iter().map(|m| json!({"id": format!("{:?}", m.id), "p1": m.ann.gm_priority1, "steps": m.ann.steps_removed, "first_seq": m.first_seq,
+            "irregular_at": m.pats.iter().enumerate().filter(|(_, p)| **p != Pat::Once).map(|(i, p)| format!("{}:{:?}", i, p)).collect::<Vec<_>>()})).collect::<Vec<_>>()});
+    out.label("long-run");
+    if q && w {
+        out.nontrivial = Some(hash_of(&format!("{:?}{:?}{}", sc.masters.iter().map(|m| m.first_seq).collect::<Vec<_>>(), sc.bmca_phase_pm, sc.horizon)));
+    }
+    out
+}
+
 pub fn run(ctx: &Ctx) -> i32 {
     let mut rep = Report::new();
     run_cases(ctx, &mut rep, "histories", ctx.cases(300_000, 6_000_000), case);
+    run_cases(ctx, &mut rep, "long", ctx.cases(32, 600), case_long);
     finish(
         Finish {
             ctx,
             level: "exploration",
-            rule: "one port (1/4 of the cases a second idle port with a shorter announce interval so that BMCA and announce periods differ), announce log interval -2..1, receipt timeout 2..4, horizon 16 announce intervals + 8 of silence; 1-3 masters (1/9 of the cases 9-10, beyond the record capacity) each with a per-interval arrival pattern (absent, once, duplicated, two with reordered ids, stale id; runs of presence/absence; single isolated Announce), first sequence id 0..999 or 65530..65535, stepsRemoved 0/1/3/254 or >= 255, foreign identity or the own clock identity, random arrival phase per interval, random BMCA phase; the announce receipt timer and all other timers are live (host timer model). After every BMCA an independent time-based reception record is consulted: necessary conditions always, the sufficient and expiry clauses for clean patterns (DESIGN.md C06). Non-trivial = a qualification and (a loss/change of parent or a sequence wrap); distinct by scenario.",
+            rule: "part histories: one port (1/3 of the cases a second idle port with a 2, 4 or 8 times shorter announce interval so that BMCA and announce periods differ), announce log interval -2..1, receipt timeout 2..4, horizon 16 announce intervals + 8 of silence; 1-3 masters (1/9 of the cases 9-10, beyond the record capacity) each with a per-interval arrival pattern (absent, once, duplicated, two with reordered ids, stale id; runs of presence/absence; single isolated Announce), first sequence id 0..999 or 65530..65535, stepsRemoved 0/1/3/254 or >= 255, foreign identity or the own clock identity, random arrival phase per interval, random BMCA phase; the announce receipt timer and all other timers are live (host timer model). After every BMCA an independent time-based reception record is consulted: necessary conditions always, the sufficient and expiry clauses for clean patterns (DESIGN.md C06). Non-trivial = a qualification and (a loss/change of parent or a sequence wrap); distinct by scenario. Part long: one or two masters announcing in every interval (an occasional gap or duplicate every 500-4500 intervals) over 33000-80000 announce intervals - a complete sequence-number cycle 65535->0 plus half of the next - same oracle after every BMCA; non-trivial = qualified and wrap crossed.",
             assumptions: vec!["window slack of one BMCA period (record ages advance in BMCA-period quanta)".into(), "receptions are counted generously on the necessary side (duplicates and stale ids count)".into()],
             min_nontrivial: 100,
         },
@@ -362,5 +409,10 @@ pub fn run(ctx: &Ctx) -> i32 {
 }
 
 pub fn replay(ctx: &Ctx, path: &str) -> i32 {
+    let s = std::fs::read_to_string(path).expect("read replay");
+    let v: serde_json::Value = serde_json::from_str(&s).expect("parse");
+    if v["part"].as_str() == Some("long") {
+        return replay_file(ctx, path, case_long);
+    }
     replay_file(ctx, path, case)
 }
